@@ -67,8 +67,9 @@ structure Ext (T S R : Type) where
   printed : T → S → String                     -- what `glom.glom(target, spec)` itself writes to stdout (Inspect's echo; nothing otherwise)
   parseInt : String → Option Int               -- `int(text)`; `none` = it raised
   helpText : String                            -- what the help handler prints
-  flagfile : String → Except String (List (Except String (List String)))
-                                               -- `--flagfile PATH`: the class the read raised | per line: the class `shlex.split` raised | its tokens
+  flagfile : String → Except (Bool × String) (List (Except String (List String)))
+                                               -- `--flagfile PATH`: (is it a UnicodeError / EnvironmentError, the class the read raised) |
+                                               -- per line: the class `shlex.split` raised | its tokens
   abspath : String → String                    -- `os.path.abspath`
 
 structure Argv where
